@@ -85,6 +85,7 @@ func init() {
 			"2 (quick) / 3 (thorough) goroutines, each with its own Decorator and Restorer on a different file, sharing one goast resolver (lazily defaulted / WithResolver) and read-only package-name resolvers; all interleavings at the hooked operations with preemption bound 3; " +
 			"every execution starts from the initial values of the library's package-level variables (registered by the instrumenter, restored before each run); oracle per schedule: no access pair unordered by happens-before (vector clocks over lock release/acquire), no deadlock, no panic, every thread's tree and bytes equal its sequential result; " +
 			"sequentially: 8 import-management / package scenarios x every single (thorough: pair of) non-default map iteration order at any range-over-map, and repetition: identical output; " +
+			"sequential call histories: every ordered pair (thorough: triple) of calls from a pool of 22 bodies (thread files, helpers, the map-order scenarios) made in one process without resetting package-level state, once with resolvers of their own and once sharing one goast resolver: the last call's tree and bytes equal those of the same call made first; " +
 			"plus a free-running go build -race pass of the same thread bodies; state = distinct order of accesses to shared locations / distinct map-order vector; non-trivial = schedule with a preemption or non-default map order",
 		Assumptions: []string{"only hooked operations are scheduling points; races on other memory are left to the free-running -race pass", "RWMutex is modelled as an exclusive lock"},
 		NeedsInstr:  true,
@@ -96,7 +97,13 @@ func init() {
 			for _, s := range c16MapScenarios {
 				u = append(u, "maporder/"+s)
 			}
-			return append(u, "race-detector")
+			u = append(u, "race-detector")
+			for _, m := range c16HistoryModes {
+				for i := 0; i < c16HistShards; i++ {
+					u = append(u, fmt.Sprintf("history/%s#%d", m, i))
+				}
+			}
+			return u
 		},
 		Run: runC16,
 		Check: func(c core.Case) core.Outcome {
@@ -114,6 +121,8 @@ func init() {
 				var o core.Outcome
 				explore.Replay(cs.Choices, func(ch *explore.Chooser) { o = c16MapOrder(cs, ch) })
 				return o
+			case "history":
+				return c16History(cs)
 			}
 			return c16RacePass()
 		},
@@ -183,11 +192,130 @@ func runC16(ctx *core.Ctx, unit int) {
 		if tree.Cut {
 			ctx.Cut("map orders of " + sc)
 		}
-	default:
+	case unit == nt+len(c16MapScenarios):
 		cs := c16Case{Kind: "race-detector", Scenario: "free-running"}
 		ctx.CountState(true)
 		ctx.Eval(cs, c16RacePass())
+	default:
+		h := unit - nt - len(c16MapScenarios) - 1
+		mode, shard := c16HistoryModes[h/c16HistShards], h%c16HistShards
+		bodies := c16HistoryBodies()
+		depth := 2
+		if ctx.Thorough() {
+			depth = 3
+		}
+		n := 0
+		var rec func(prefix []string)
+		rec = func(prefix []string) {
+			if len(prefix) >= 2 {
+				n++
+				if n%c16HistShards == shard {
+					if ctx.Expired() {
+						return
+					}
+					cs := c16Case{Kind: "history", Scenario: mode + ":" + strings.Join(prefix, ">")}
+					ctx.State(cs.Scenario, true)
+					ctx.R.Transitions += int64(len(prefix))
+					ctx.Eval(cs, c16History(cs))
+					if len(ctx.R.Samples) < 1 {
+						ctx.Sample(cs)
+					}
+				}
+			}
+			if len(prefix) == depth {
+				return
+			}
+			for _, b := range bodies {
+				rec(append(append([]string{}, prefix...), b.name))
+			}
+		}
+		rec(nil)
+		ctx.Count("call histories:"+mode, int64(n))
+		if ctx.Expired() {
+			ctx.Cut("histories " + mode)
+		}
 	}
+}
+
+// ---- sequential call histories: the determinism clause over what one process did before
+//
+// Every ordered pair (thorough: triple) of calls from a pool of 20-odd bodies is executed in one
+// process without resetting the library's package-level state in between; the last call's tree and
+// bytes must equal those of the same call made first thing after a reset. Mode "fresh": every call
+// has its own resolvers (only process-global state can connect them); mode "shared-goast": the calls
+// share one syntax-based resolver, which the property allows.
+
+const c16HistShards = 2
+
+var c16HistoryModes = []string{"fresh", "shared-goast"}
+
+type c16HB struct {
+	name string
+	run  func(g resolver.DecoratorResolver) string
+}
+
+func c16HistoryBodies() []c16HB {
+	var out []c16HB
+	file := func(name, src string) {
+		out = append(out, c16HB{name, func(g resolver.DecoratorResolver) string {
+			if g == nil {
+				g = goast.New()
+			}
+			var r c16Result
+			c16Body(src, g, guess.New(), &r)()
+			return r.tree + "\n--\n" + r.out + r.err
+		}})
+	}
+	for i := range c16ThreadFiles {
+		file("file:"+c16ThreadFiles[i], c16Src(i, ""))
+	}
+	for i := range c16VendoredFiles {
+		file("file:"+c16VendoredFiles[i], c16Src(i, "+vendored"))
+	}
+	out = append(out, c16HB{"helpers", func(resolver.DecoratorResolver) string {
+		var r c16Result
+		c16Body(c16Src(5, ""), nil, nil, &r)()
+		return r.tree + "\n--\n" + r.out + r.err
+	}})
+	for _, sc := range c16MapScenarios {
+		body := c16MapBody(sc)
+		out = append(out, c16HB{"scenario:" + sc, func(resolver.DecoratorResolver) string { return body() }})
+	}
+	return out
+}
+
+func c16History(cs c16Case) core.Outcome {
+	i := strings.Index(cs.Scenario, ":")
+	mode, names := cs.Scenario[:i], strings.Split(cs.Scenario[i+1:], ">")
+	bodies := map[string]c16HB{}
+	for _, b := range c16HistoryBodies() {
+		bodies[b.name] = b
+	}
+	last := bodies[names[len(names)-1]]
+	var ref, got string
+	vsched.ResetGlobals()
+	if p := guard(func() { ref = last.run(nil) }); p != "" {
+		return core.Outcome{Key: "engine:history-reference", Desc: p}
+	}
+	vsched.ResetGlobals()
+	var shared resolver.DecoratorResolver
+	if mode == "shared-goast" {
+		shared = goast.New()
+	}
+	p := guard(func() {
+		for _, n := range names[:len(names)-1] {
+			bodies[n].run(shared)
+		}
+		got = last.run(shared)
+	})
+	vsched.ResetGlobals()
+	if p != "" {
+		return core.Outcome{Key: "panic:history:" + mode, Desc: "calls " + cs.Scenario + "\n" + p}
+	}
+	if got != ref {
+		return core.Outcome{Key: "result-depends-on-earlier-calls:" + mode, Desc: "calls " + cs.Scenario + ": the last call's tree or bytes differ from what the same call yields as the first call of a process\n" + diffDesc(ref, got)}
+	}
+	return core.Outcome{OK: true}
 }
 
 func c16Resolvers(sc string) (shared func() resolver.DecoratorResolver, res resolver.RestorerResolver) {
